@@ -1,6 +1,442 @@
 package sim
 
+import (
+	"fmt"
+	"reflect"
+	"sort"
+	"strings"
+
+	"go.uber.org/dig"
+)
+
+// The malformed-input grammar (C14). Values are built over a type universe of
+// their own (M*) so that an accepted odd-but-legal registration never
+// interferes with the keys the reference model tracks.
+
+type M0 struct{ X int }
+type M1 struct{ X int }
+type M2 struct{ X int }
+type MS0 []*M0 // named slice type with methods
+
+func (MS0) Foo()   {}
+func (m *M0) Foo() {}
+func (m *M1) Foo() {}
+
+type MI interface{ Foo() }
+type MJ interface{ Bar() }
+
+type malCall struct {
+	fn    interface{}
+	popts []dig.ProvideOption
+	dopts []dig.DecorateOption
+	iopts []dig.InvokeOption
+}
+
+type malCase struct {
+	api   string // provide | decorate | invoke
+	name  string
+	build func(m *Mal) malCall
+}
+
+var (
+	m0T   = reflect.TypeOf((*M0)(nil))
+	m1T   = reflect.TypeOf((*M1)(nil))
+	msT   = reflect.TypeOf(MS0(nil))
+	miT   = reflect.TypeOf((*MI)(nil)).Elem()
+	inPT  = reflect.TypeOf((*dig.In)(nil))
+	outPT = reflect.TypeOf((*dig.Out)(nil))
+)
+
+// fieldTypes the tag grammar combines with tags.
+var malFieldTypes = []reflect.Type{
+	m0T, m1T, reflect.SliceOf(m0T), msT, miT,
+	reflect.TypeOf((chan int)(nil)), reflect.TypeOf((<-chan int)(nil)), reflect.TypeOf((func())(nil)),
+	reflect.TypeOf(map[string]int(nil)), reflect.TypeOf([2]int{}), reflect.TypeOf(0), reflect.TypeOf(""),
+	errType, reflect.SliceOf(reflect.SliceOf(m0T)), reflect.TypeOf((*error)(nil)),
+}
+
+// stub builds a function of type ft that returns zero values.
+func zeroStub(ft reflect.Type) interface{} {
+	return reflect.MakeFunc(ft, func([]reflect.Value) []reflect.Value {
+		out := make([]reflect.Value, ft.NumOut())
+		for i := range out {
+			out[i] = reflect.Zero(ft.Out(i))
+		}
+		return out
+	}).Interface()
+}
+
+func structOf(embed reflect.Type, anonymous bool, embedTag string, fields ...reflect.StructField) (t reflect.Type, err error) {
+	defer func() {
+		if p := recover(); p != nil {
+			err = fmt.Errorf("reflect.StructOf: %v", p)
+		}
+	}()
+	fs := []reflect.StructField{{Name: embedName(embed), Type: embed, Anonymous: anonymous, Tag: reflect.StructTag(embedTag)}}
+	fs = append(fs, fields...)
+	return reflect.StructOf(fs), nil
+}
+
+func embedName(t reflect.Type) string {
+	if t.Kind() == reflect.Ptr {
+		return t.Elem().Name()
+	}
+	return t.Name()
+}
+
+var errMalUnbuildable = fmt.Errorf("malformed value cannot be constructed with reflect")
+
+// inObj / outObj build `struct{ dig.In; F <type> `tag` }`.
+func inObj(ft reflect.Type, tag string) (reflect.Type, error) {
+	return structOf(inType, true, "", reflect.StructField{Name: "F", Type: ft, Tag: reflect.StructTag(tag)})
+}
+
+func outObj(ft reflect.Type, tag string) (reflect.Type, error) {
+	return structOf(outType, true, "", reflect.StructField{Name: "F", Type: ft, Tag: reflect.StructTag(tag)})
+}
+
+func fnOf(in, out []reflect.Type) interface{} { return zeroStub(reflect.FuncOf(in, out, false)) }
+
+func pick(m *Mal, n int) int {
+	if n <= 0 {
+		return 0
+	}
+	a := m.Arg % n
+	if a < 0 {
+		a += n
+	}
+	return a
+}
+
+var malCases = []malCase{
+	// ---- values that are not usable functions
+	{"provide", "nil", func(m *Mal) malCall { return malCall{fn: nil} }},
+	{"decorate", "nil", func(m *Mal) malCall { return malCall{fn: nil} }},
+	{"invoke", "nil", func(m *Mal) malCall { return malCall{fn: nil} }},
+	{"provide", "typed-nil-func", func(m *Mal) malCall { return malCall{fn: (func() *M1)(nil)} }},
+	{"decorate", "typed-nil-func", func(m *Mal) malCall { return malCall{fn: (func(*M0) *M0)(nil)} }},
+	{"invoke", "typed-nil-func", func(m *Mal) malCall { return malCall{fn: (func())(nil)} }},
+	{"provide", "non-func", func(m *Mal) malCall { return malCall{fn: nonFuncs[pick(m, len(nonFuncs))]} }},
+	{"decorate", "non-func", func(m *Mal) malCall { return malCall{fn: nonFuncs[pick(m, len(nonFuncs))]} }},
+	{"invoke", "non-func", func(m *Mal) malCall { return malCall{fn: nonFuncs[pick(m, len(nonFuncs))]} }},
+	// ---- odd signatures
+	{"provide", "no-results", func(m *Mal) malCall { return malCall{fn: func() {}} }},
+	{"provide", "only-error", func(m *Mal) malCall { return malCall{fn: func() error { return nil }} }},
+	{"provide", "error-first", func(m *Mal) malCall { return malCall{fn: func() (error, *M2) { return nil, &M2{} }} }},
+	{"provide", "two-errors", func(m *Mal) malCall { return malCall{fn: func() (*M2, error, error) { return &M2{}, nil, nil }} }},
+	{"provide", "takes-error", func(m *Mal) malCall { return malCall{fn: func(error) *M2 { return &M2{} }} }},
+	{"decorate", "no-results", func(m *Mal) malCall { return malCall{fn: func(*M0) {}} }},
+	{"decorate", "only-error", func(m *Mal) malCall { return malCall{fn: func(*M0) error { return nil }} }},
+	{"provide", "odd-result-type", func(m *Mal) malCall {
+		t := malFieldTypes[pick(m, len(malFieldTypes))]
+		return malCall{fn: fnOf(nil, []reflect.Type{t})}
+	}},
+	{"provide", "odd-param-type", func(m *Mal) malCall {
+		t := malFieldTypes[pick(m, len(malFieldTypes))]
+		return malCall{fn: fnOf([]reflect.Type{t}, []reflect.Type{reflect.TypeOf((*M2)(nil))})}
+	}},
+	{"invoke", "odd-param-type", func(m *Mal) malCall {
+		t := malFieldTypes[pick(m, len(malFieldTypes))]
+		return malCall{fn: fnOf([]reflect.Type{t}, nil)}
+	}},
+	{"invoke", "returns-values", func(m *Mal) malCall { return malCall{fn: func() (*M0, int) { return nil, 0 }} }},
+	{"provide", "variadic-only", func(m *Mal) malCall { return malCall{fn: func(...*M0) *M2 { return &M2{} }} }},
+	// ---- In / Out misuse
+	{"provide", "returns-In", func(m *Mal) malCall {
+		t, _ := inObj(m0T, "")
+		return malCall{fn: fnOf(nil, []reflect.Type{t})}
+	}},
+	{"provide", "takes-Out", func(m *Mal) malCall {
+		t, _ := outObj(m0T, "")
+		return malCall{fn: fnOf([]reflect.Type{t}, []reflect.Type{m1T})}
+	}},
+	{"invoke", "takes-Out", func(m *Mal) malCall {
+		t, _ := outObj(m0T, "")
+		return malCall{fn: fnOf([]reflect.Type{t}, nil)}
+	}},
+	{"provide", "ptr-In-param", func(m *Mal) malCall {
+		t, _ := inObj(m0T, "")
+		return malCall{fn: fnOf([]reflect.Type{reflect.PtrTo(t)}, []reflect.Type{m1T})}
+	}},
+	{"provide", "ptr-Out-result", func(m *Mal) malCall {
+		t, _ := outObj(m0T, "")
+		return malCall{fn: fnOf(nil, []reflect.Type{reflect.PtrTo(t)})}
+	}},
+	{"provide", "ptr-Out-param", func(m *Mal) malCall {
+		t, _ := outObj(m0T, "")
+		return malCall{fn: fnOf([]reflect.Type{reflect.PtrTo(t)}, []reflect.Type{m1T})}
+	}},
+	{"provide", "ptr-In-result", func(m *Mal) malCall {
+		t, _ := inObj(m0T, "")
+		return malCall{fn: fnOf(nil, []reflect.Type{reflect.PtrTo(t)})}
+	}},
+	{"provide", "embed-ptr-In", func(m *Mal) malCall {
+		t, err := structOf(inPT, true, "", reflect.StructField{Name: "F", Type: m0T})
+		if err != nil {
+			return malCall{fn: errMalUnbuildable}
+		}
+		return malCall{fn: fnOf([]reflect.Type{t}, []reflect.Type{m1T})}
+	}},
+	{"provide", "embed-ptr-Out", func(m *Mal) malCall {
+		t, err := structOf(outPT, true, "", reflect.StructField{Name: "F", Type: m0T})
+		if err != nil {
+			return malCall{fn: errMalUnbuildable}
+		}
+		return malCall{fn: fnOf(nil, []reflect.Type{t})}
+	}},
+	{"provide", "In-as-named-field", func(m *Mal) malCall {
+		t, _ := structOf(inType, false, "", reflect.StructField{Name: "F", Type: m0T})
+		return malCall{fn: fnOf([]reflect.Type{t}, []reflect.Type{m1T})}
+	}},
+	{"provide", "In-and-Out", func(m *Mal) malCall {
+		t, err := structOf(inType, true, "", reflect.StructField{Name: "Out", Type: outType, Anonymous: true}, reflect.StructField{Name: "F", Type: m0T})
+		if err != nil {
+			return malCall{fn: errMalUnbuildable}
+		}
+		if pick(m, 2) == 0 {
+			return malCall{fn: fnOf([]reflect.Type{t}, []reflect.Type{m1T})}
+		}
+		return malCall{fn: fnOf(nil, []reflect.Type{t})}
+	}},
+	{"provide", "nested-In-deep", func(m *Mal) malCall {
+		t, _ := inObj(m0T, `name:"deep"`)
+		for d := 0; d < 1+pick(m, 4); d++ {
+			t, _ = inObj(t, "")
+		}
+		return malCall{fn: fnOf([]reflect.Type{t}, []reflect.Type{m1T})}
+	}},
+	{"provide", "unexported-field", func(m *Mal) malCall {
+		tags := []string{"", `ignore-unexported:"true"`, `ignore-unexported:"false"`, `ignore-unexported:"perhaps"`, `ignore-unexported:""`}
+		t, err := structOf(inType, true, tags[pick(m, len(tags))],
+			reflect.StructField{Name: "F", Type: m0T},
+			reflect.StructField{Name: "hidden", PkgPath: "digsim", Type: m1T})
+		if err != nil {
+			return malCall{fn: errMalUnbuildable}
+		}
+		return malCall{fn: fnOf([]reflect.Type{t}, []reflect.Type{reflect.TypeOf((*M2)(nil))})}
+	}},
+	{"invoke", "unexported-field", func(m *Mal) malCall {
+		tags := []string{"", `ignore-unexported:"true"`, `ignore-unexported:"perhaps"`}
+		t, err := structOf(inType, true, tags[pick(m, len(tags))],
+			reflect.StructField{Name: "hidden", PkgPath: "digsim", Type: m1T})
+		if err != nil {
+			return malCall{fn: errMalUnbuildable}
+		}
+		return malCall{fn: fnOf([]reflect.Type{t}, nil)}
+	}},
+	{"provide", "unexported-out-field", func(m *Mal) malCall {
+		t, err := structOf(outType, true, "", reflect.StructField{Name: "hidden", PkgPath: "digsim", Type: m1T})
+		if err != nil {
+			return malCall{fn: errMalUnbuildable}
+		}
+		return malCall{fn: fnOf(nil, []reflect.Type{t})}
+	}},
+	// ---- tag grammar (Str is the tag text; Arg selects the field type)
+	{"provide", "in-tag", func(m *Mal) malCall {
+		t, _ := inObj(malFieldTypes[pick(m, len(malFieldTypes))], m.Str)
+		return malCall{fn: fnOf([]reflect.Type{t}, []reflect.Type{reflect.TypeOf((*M2)(nil))})}
+	}},
+	{"invoke", "in-tag", func(m *Mal) malCall {
+		t, _ := inObj(malFieldTypes[pick(m, len(malFieldTypes))], m.Str)
+		return malCall{fn: fnOf([]reflect.Type{t}, nil)}
+	}},
+	{"decorate", "in-tag", func(m *Mal) malCall {
+		t, _ := inObj(malFieldTypes[pick(m, len(malFieldTypes))], m.Str)
+		return malCall{fn: fnOf([]reflect.Type{t}, []reflect.Type{m0T})}
+	}},
+	{"provide", "out-tag", func(m *Mal) malCall {
+		t, _ := outObj(malFieldTypes[pick(m, len(malFieldTypes))], m.Str)
+		return malCall{fn: fnOf(nil, []reflect.Type{t})}
+	}},
+	{"decorate", "out-tag", func(m *Mal) malCall {
+		t, _ := outObj(malFieldTypes[pick(m, len(malFieldTypes))], m.Str)
+		return malCall{fn: fnOf([]reflect.Type{m0T}, []reflect.Type{t})}
+	}},
+	// ---- option combinations (Str carries names / groups)
+	{"provide", "opt-as", func(m *Mal) malCall {
+		as := [][]interface{}{{nil}, {42}, {new(int)}, {new(MJ)}, {new(MI), new(MJ)}, {new(MI)}, {(*MI)(nil), nil}, {}, {new(error)}, {new(interface{})}}
+		fns := []interface{}{func() *M0 { return &M0{} }, func() MS0 { return nil }, func() (*M0, *M2) { return &M0{}, &M2{} }, func() MI { return &M0{} }}
+		return malCall{fn: fns[pick(m, len(fns))], popts: []dig.ProvideOption{dig.As(as[(m.Arg/4)%len(as)]...)}}
+	}},
+	{"provide", "opt-name-group", func(m *Mal) malCall {
+		var o []dig.ProvideOption
+		parts := strings.SplitN(m.Str, "|", 2)
+		if parts[0] != "" {
+			o = append(o, dig.Name(parts[0]))
+		}
+		if len(parts) > 1 && parts[1] != "" {
+			o = append(o, dig.Group(parts[1]))
+		}
+		fns := []interface{}{func() *M0 { return &M0{} }, func() []*M0 { return nil }, func() MS0 { return nil }, func() (*M0, *M1) { return &M0{}, &M1{} }}
+		return malCall{fn: fns[pick(m, len(fns))], popts: o}
+	}},
+	{"provide", "opt-group-as", func(m *Mal) malCall {
+		fns := []interface{}{func() MS0 { return MS0{&M0{}} }, func() *M0 { return &M0{} }, func() []*M0 { return []*M0{{}} }}
+		grp := []string{"mg,flatten", "mg", ",flatten", "mg,soft"}
+		return malCall{fn: fns[pick(m, len(fns))], popts: []dig.ProvideOption{dig.Group(grp[(m.Arg/3)%len(grp)]), dig.As(new(MI))}}
+	}},
+	{"provide", "opt-misc", func(m *Mal) malCall {
+		opts := [][]dig.ProvideOption{
+			{dig.LocationForPC(0)}, {dig.LocationForPC(1)}, {dig.WithProviderCallback(nil)}, {dig.FillProvideInfo(nil)},
+			{dig.Export(true), dig.Export(false)}, {dig.Name("a"), dig.Name("")}, {dig.LocationForPC(0), dig.WithProviderCallback(func(dig.CallbackInfo) {})},
+		}
+		return malCall{fn: func() *M2 { return &M2{} }, popts: opts[pick(m, len(opts))]}
+	}},
+	{"decorate", "opt-misc", func(m *Mal) malCall {
+		opts := [][]dig.DecorateOption{{dig.FillDecorateInfo(nil)}, {dig.WithDecoratorCallback(nil)}}
+		return malCall{fn: func(x *M0) *M0 { return x }, dopts: opts[pick(m, len(opts))]}
+	}},
+	{"invoke", "opt-misc", func(m *Mal) malCall {
+		return malCall{fn: func() {}, iopts: []dig.InvokeOption{dig.FillInvokeInfo(nil)}}
+	}},
+	// ---- decorators of odd shape
+	{"decorate", "group-single-value", func(m *Mal) malCall {
+		t, _ := outObj(m0T, `group:"mg"`)
+		return malCall{fn: fnOf(nil, []reflect.Type{t})}
+	}},
+	{"decorate", "group-flatten", func(m *Mal) malCall {
+		ts := []reflect.Type{reflect.SliceOf(m0T), reflect.SliceOf(reflect.SliceOf(m0T)), msT}
+		t, _ := outObj(ts[pick(m, len(ts))], `group:"mg,flatten"`)
+		return malCall{fn: fnOf(nil, []reflect.Type{t})}
+	}},
+	{"decorate", "same-key-twice", func(m *Mal) malCall { return malCall{fn: func(a *M0) (*M0, *M0) { return a, a }} }},
+	{"decorate", "plain", func(m *Mal) malCall {
+		fns := []interface{}{func(a *M0) *M0 { return a }, func(a *M1) *M1 { return a }, func() *M2 { return &M2{} }}
+		return malCall{fn: fns[pick(m, len(fns))]}
+	}},
+	// ---- legal registrations and probes over the M universe, so that state
+	// left behind by the cases above is exercised
+	{"provide", "plain", func(m *Mal) malCall {
+		fns := []interface{}{func() *M0 { return &M0{} }, func() *M1 { return &M1{} }, func(*M0) *M2 { return &M2{} }, func() MS0 { return MS0{&M0{}} }}
+		return malCall{fn: fns[pick(m, len(fns))]}
+	}},
+	{"invoke", "probe", func(m *Mal) malCall {
+		g1, _ := inObj(reflect.SliceOf(m0T), `group:"mg"`)
+		g2, _ := inObj(msT, `group:"mg"`)
+		g3, _ := inObj(reflect.SliceOf(m0T), `group:""`)
+		g4, _ := inObj(reflect.SliceOf(miT), `group:"mg"`)
+		n1, _ := inObj(m0T, `name:"a"`)
+		o1, _ := inObj(m1T, `optional:"true"`)
+		fns := []interface{}{func(*M0) {}, func(*M1) {}, func(*M2) {}, func(MS0) {}, func([]*M0) {}, func(MI) {},
+			fnOf([]reflect.Type{g1}, nil), fnOf([]reflect.Type{g2}, nil), fnOf([]reflect.Type{g3}, nil), fnOf([]reflect.Type{g4}, nil),
+			fnOf([]reflect.Type{n1}, nil), fnOf([]reflect.Type{o1}, nil), func(*M0, *M1, *M2) {}}
+		return malCall{fn: fns[pick(m, len(fns))]}
+	}},
+}
+
+var nonFuncs = []interface{}{42, "x", struct{}{}, &M0{}, []int{1}, map[string]int{}, 3.5, true, new(int), [2]int{}, MS0{}, fmt.Errorf("e"), dig.In{}, &dig.Out{}}
+
+var malIndex = func() map[string]int {
+	idx := map[string]int{}
+	for i, c := range malCases {
+		idx[c.api+"/"+c.name] = i
+	}
+	return idx
+}()
+
+// MalKinds lists "api/name" of every grammar production, sorted.
+func MalKinds() []string {
+	var ks []string
+	for k := range malIndex {
+		ks = append(ks, k)
+	}
+	sort.Strings(ks)
+	return ks
+}
+
+// tagGrammar draws a struct tag string.
+func tagGrammar(r *Rng) string {
+	names := []string{`name:"a"`, `name:""`, `name:"a<b>"`, `name:"x&y"`, "name:\"q\\\"uote\"", `name:"` + "b`q" + `"`}
+	opts := []string{`optional:"true"`, `optional:"false"`, `optional:"maybe"`, `optional:"1"`, `optional:""`, `optional:"TRUE"`, `optional:"yes"`}
+	groups := []string{`group:"mg"`, `group:",flatten"`, `group:"mg,flatten"`, `group:"mg,soft"`, `group:"mg,flatten,soft"`, `group:"mg,bogus"`, `group:","`,
+		`group:"mg,,"`, `group:"mg,flatten,flatten"`, `group:",soft"`, `group:"m<g>"`, `group:"mg,Soft"`, `group:" mg"`}
+	misc := []string{`ignore-unexported:"true"`, `group`, `name=a`, `json:"x"`, `optional`, `group:mg`}
+	var parts []string
+	if r.P(0.4) {
+		parts = append(parts, names[r.Intn(len(names))])
+	}
+	if r.P(0.4) {
+		parts = append(parts, opts[r.Intn(len(opts))])
+	}
+	if r.P(0.5) {
+		parts = append(parts, groups[r.Intn(len(groups))])
+	}
+	if r.P(0.1) {
+		parts = append(parts, misc[r.Intn(len(misc))])
+	}
+	p := r.Perm(len(parts))
+	out := make([]string, len(parts))
+	for i, j := range p {
+		out[i] = parts[j]
+	}
+	return strings.Join(out, " ")
+}
+
+func nameGroupGrammar(r *Rng) string {
+	names := []string{"", "a", "b`q", "a<b>", "x y", "\"", "é"}
+	groups := []string{"", "mg", "mg,flatten", ",flatten", "mg,soft", "mg,bogus", "m`g", ",", "mg,flatten,soft"}
+	return names[r.Intn(len(names))] + "|" + groups[r.Intn(len(groups))]
+}
+
+// GenMal draws one malformed call.
+func GenMal(r *Rng) *Mal {
+	c := malCases[r.Intn(len(malCases))]
+	m := &Mal{API: c.api, Kind: c.name, Arg: r.Intn(1 << 16)}
+	switch c.name {
+	case "in-tag", "out-tag":
+		m.Str = tagGrammar(r)
+		if r.P(0.4) {
+			// slice-typed fields make the group tags meaningful
+			m.Arg = 2 + r.Intn(2)
+		}
+	case "opt-name-group":
+		m.Str = nameGroupGrammar(r)
+	}
+	return m
+}
+
 // execMalformed issues a call with a value from the malformed grammar.
 func (w *World) execMalformed(r *Run, op Op) (error, ErrFacts, bool) {
-	return nil, ErrFacts{Nil: true, RootInj: noInj(), IsInj: noInj(), PanicInj: noInj(), EscInj: noInj()}, true
+	none := ErrFacts{Nil: true, RootInj: noInj(), IsInj: noInj(), PanicInj: noInj(), EscInj: noInj()}
+	if op.Mal == nil {
+		return nil, none, true
+	}
+	i, ok := malIndex[op.Mal.API+"/"+op.Mal.Kind]
+	if !ok {
+		return nil, none, true
+	}
+	var call malCall
+	built := func() (ok bool) {
+		defer func() {
+			if p := recover(); p != nil {
+				ok = false
+			}
+		}()
+		call = malCases[i].build(op.Mal)
+		return true
+	}()
+	if !built || call.fn == error(errMalUnbuildable) {
+		return nil, none, true
+	}
+	sc := w.Scopes[op.Scope]
+	err, facts := w.guard(func() error {
+		switch op.Mal.API {
+		case "provide":
+			if op.Scope == 0 {
+				return w.C.Provide(call.fn, call.popts...)
+			}
+			return sc.Provide(call.fn, call.popts...)
+		case "decorate":
+			if op.Scope == 0 {
+				return w.C.Decorate(call.fn, call.dopts...)
+			}
+			return sc.Decorate(call.fn, call.dopts...)
+		default:
+			if op.Scope == 0 {
+				return w.C.Invoke(call.fn, call.iopts...)
+			}
+			return sc.Invoke(call.fn, call.iopts...)
+		}
+	})
+	return err, facts, false
 }
